@@ -72,7 +72,11 @@ func ExtGState(c pdf.Cursor, obj pdf.Object, isDirect bool) (*extgstate.ExtGStat
 				return nil, err
 			}
 
-			F, err := Font(c, fontRef, false)
+			// through pdf.Decode: the reference joins the cycle-detection path
+			// (a Type 3 font whose resources select the font itself would
+			// otherwise recurse until the stack overflows), the depth cap
+			// applies, and the font is shared with the /Font resources
+			F, err := pdf.Decode(c, fontRef, Font)
 			if pdf.IsMalformed(err) {
 				break
 			} else if err != nil {
